@@ -96,6 +96,12 @@ def builders():
                T.TMPService.PrivateShortData, T.TMPService.PrivateShortDataAck, T.TMPService.GroupShortData, T.TMPService.GroupShortDataAck):
         out.append(("TMP", op.name, tmp(op)))
     # ---- RCP
+    nlong = [0]
+
+    def long_len(r):
+        nlong[0] += 1
+        return [255, 256, 257, 512, 513, 300, 768, 1024][(nlong[0] // 3) % 8] if nlong[0] % 3 == 0 else r.randrange(0, 12)
+
     O = R.RCPOpcode
     ct = lambda r: r.choice(list(R.RCPCallType))
     res = lambda r: r.choice(list(R.RCPResult))
@@ -121,7 +127,9 @@ def builders():
         "StatusChangeNotificationRequest": lambda r: dict(status_change_settings={t: r.choice([x for x in R.StatusChangeNotificationSetting])
                                                                                   for t in r.sample([x for x in R.StatusChangeNotificationTargets], r.randrange(0, 5))}),
         "RadioStatusReport": lambda r: dict(status_change_target=r.choice([x for x in R.StatusChangeNotificationTargets]), status_change_value=r.randrange(1 << 16)),
-        "UnknownService": lambda r: dict(raw_payload=gen.rbytes(r, r.randrange(0, 12)), raw_opcode=bytes([0x7E, 0x7F])),
+        # a pass-through payload is any octets: lengths that need the second octet of the (little-endian) RCP length field, whose
+        # two octets read the other way round give a smaller number (256, 512, 513 ...), are walked through by a counter
+        "UnknownService": lambda r: dict(raw_payload=gen.rbytes(r, long_len(r)), raw_opcode=bytes([0x7E, 0x7F])),
     }
     for name, kw in rcp.items():
         if hasattr(O, name):
